@@ -1256,6 +1256,10 @@ func (r *replicateChannelHandler) getTSManagerChannelKey(channelName string) str
 func (r *replicateChannelHandler) innerHandleReplicateMsg(forward bool, msg *api.ReplicateMsg) {
 	msgPack := msg.MsgPack
 	p := r.handlePack(forward, msgPack, msg.TaskID)
+	if p == nil {
+		// handlePack has reported the error through the event channel and produced no pack
+		return
+	}
 	if p == api.EmptyMsgPack {
 		return
 	}
